@@ -10,13 +10,15 @@ import contracts.setfl as SF
 import contracts.eam_tabulation as ET
 import contracts.refdata as RDc
 import contracts.builders_eam as BE
+import contracts.species as SPc
 
 F = SF.FILE
 FUNCTIONS = [(F, q) for q in ('_writeSetFLHeader', '_writeSetFLElementHeader', '_writeSetFLEmbeddingFunction', '_writeDensityFunction',
                               '_writeSetFLDensityFunction', '_writeSetFLPairPots', 'writeSetFL')] + [(ET.FILE, 'SetFL_EAMTabulation.write')] + \
             [(RDc.F_RD, 'Reference_Data.get')] + [(RDc.F_EB, 'EAM_Potential_Builder.' + q) for q in ('_get_mass', '_get_atomic_number', '_get_lattice_constant', '_get_lattice_type', '_create_eam_potential')] + \
-            [(BE.F_EB, 'EAM_Potential_Builder.' + q) for q in ('_to_potential_form_dict', '_embed_species', '_density_species', '_add_null_embedding_functions', '_add_null_density_functions', '_init_eampotentials')]
-SPECSEQS = [SF.fvals, SF.pvals, SF.labels, BE.species_seq]
+            [(BE.F_EB, 'EAM_Potential_Builder.' + q) for q in ('_to_potential_form_dict', '_embed_species', '_density_species', '_add_null_embedding_functions', '_add_null_density_functions', '_init_eampotentials')] + \
+            [(SPc.F_CP, 'ConfigParser.species'), (SPc.F_CP, 'ConfigParser._convert_species_type')]
+SPECSEQS = [SF.fvals, SF.pvals, SF.labels, BE.species_seq, SPc.stripped]
 
 def lemmas():
     out = []
@@ -64,6 +66,9 @@ def lemmas():
     return out + tables.routing_obligations('C03', ['setfl', 'lammps_eam_alloy'])
 
 MUTANTS = [
+    (SPc.F_CP, 'ConfigParser.species', "species, property_name = [t.strip() for t in tokens]", "property_name, species = [t.strip() for t in tokens]", 'preserve/0'),
+    (SPc.F_CP, 'ConfigParser.species', "tokens = k.split('.', 1)", "tokens = k.split('.')", 'unpack'),
+    (SPc.F_CP, 'ConfigParser.species', "v = self._convert_species_type(property_name, v)", "v = self._convert_species_type(species, v)", 'preserve/0'),
     (BE.F_EB, 'EAM_Potential_Builder._add_null_embedding_functions', "for s in sorted(null_embed_species):", "for s in null_embed_species:", 'preserve/0'),
     (BE.F_EB, 'EAM_Potential_Builder._add_null_embedding_functions', "null_embed_species = density_species - defined", "null_embed_species = density_species", 'preserve/0'),
     (BE.F_EB, 'EAM_Potential_Builder._add_null_density_functions', "other_dict = density_dict.setdefault(s, null)", "density_dict[s] = null", 'preserve/0'),
